@@ -404,6 +404,14 @@ def msg_append_entries(ctx, kind):
     ctx.assume(Not(so.conf('dynamicMembershipChange')))
     node = peer(ctx, so)
     msg, mt, lc, ex = ae_message(ctx, so, kind)
+    if kind in ('start', 'process', 'finish'):
+        # the receive buffer may hold chunks of an earlier, possibly interrupted, transfer (any number of bytes, possibly none)
+        n_e = FreshInt('earlierBytes')
+        ctx.assume(n_e >= 0)
+        ctx.track('bytes already buffered', n_e)
+        earlier = ChunkData(n_e, 'earlier')
+        c_ = ctx.cell(so.selfref)
+        ctx.setcell(so.selfref, c_.with_field(F('recvTransmission'), recv_initial(ctx, so.mod, (earlier,))))
     old = so.snapshot()
     olog = old.get('raftLog')
     loops = {}
@@ -440,16 +448,19 @@ def msg_append_entries(ctx, kind):
     if kind in ('start', 'process', 'finish'):
         # O11.4 reassembly: start resets the buffer to this chunk, process/finish append this chunk at the end, finish unpickles exactly
         # the accumulated bytes and empties the buffer
-        rb0, rb1 = old.get('recvTransmission'), so.get('recvTransmission')
+        p0, p1 = recv_parts(ctx, old.get('recvTransmission')), recv_parts(ctx, so.get('recvTransmission'))
         chunk = ctx.cell(msg).items['data']
+        ctx.prove(p0 is not None and p1 is not None, 'C11:O11.4.receive-buffer-is-a-chunk-sequence', info=repr(so.get('recvTransmission')))
+        if p0 is None or p1 is None:
+            return
         if kind == 'start':
-            ctx.prove(rb1 is chunk or (isinstance(rb1, RecvBuf) and rb1.parts == (chunk,)), 'C11:O11.4.start-resets-the-buffer-to-this-chunk')
+            ctx.prove(p1 == (chunk,), 'C11:O11.4.start-resets-the-buffer-to-this-chunk', info=repr(p1))
         elif kind == 'process':
-            ctx.prove(isinstance(rb1, RecvBuf) and rb1.parts == rb0.parts + (chunk,), 'C11:O11.4.process-appends-the-chunk-in-order')
+            ctx.prove(p1 == p0 + (chunk,), 'C11:O11.4.process-appends-the-chunk-in-order', info=repr(p1))
         else:
             ub = ctx.glist('unpickled_buf')
-            ctx.prove(len(ub) == 1 and isinstance(ub[0], RecvBuf) and ub[0].parts == rb0.parts + (chunk,), 'C11:O11.4.finish-unpickles-all-chunks-in-order')
-            ctx.prove(rb1 == '' or (isinstance(rb1, RecvBuf) and not rb1.parts), 'C11:O11.4.finish-empties-the-buffer')
+            ctx.prove(len(ub) == 1 and recv_parts(ctx, ub[0]) == p0 + (chunk,), 'C11:O11.4.finish-unpickles-all-chunks-in-order')
+            ctx.prove(p1 == (), 'C11:O11.4.finish-empties-the-buffer', info=repr(p1))
     if kind in ('start', 'process'):
         ctx.prove(log_same(olog, log), 'C01+C11:O11.4.partial-chunk-leaves-log')
         ctx.prove(c1 == c0, 'C01+C04+C02:R8.partial-chunk-leaves-commit')
